@@ -13,6 +13,9 @@ structure ApiSt where
   chans : List (Nat × Chan)            -- includes channel 0 (the connection's own handle)
   consumers : List (String × ConsSt) := []
   deliveries : List (String × (Nat × Nat)) := []
+  /-- consumer queues as the probe fills them (`cons-push`) and a reader empties them (`cons-recv`):
+      plain FIFOs - nothing the public API does (cancel, drop) takes anything out of them -/
+  cqs : List (String × List String) := []
   ioDead : Bool := false
   ioEnd : IoEnd := .ok
 
@@ -265,6 +268,18 @@ def apiStep (s : Option ApiSt) (toks : List String) : Option ApiSt × List Strin
       | some ops => let (st1, lines) := withChan st ch (fun c => runOps c ops); (some st1, lines)
       | none => (s, ["bad-op"])
     | none => (s, ["bad-op"])
+  | "cons-push" :: cl :: what :: rest, some st =>
+    let item := if what = "delivery" then some ("cmsg delivery " ++ (rest.headD "0"))
+      else if what = "server-cancelled" then some "cmsg ServerCancelled" else none
+    match item, st.consumers.find? (·.1 = cl) with
+    | some it, some _ =>
+      let q := (st.cqs.find? (·.1 = cl)).map (·.2) |>.getD []
+      (some { st with cqs := (cl, q ++ [it]) :: st.cqs.filter (·.1 ≠ cl) }, ["ok"])
+    | _, _ => (s, ["bad-op"])
+  | ["cons-recv", cl], some st =>
+    match st.cqs.find? (·.1 = cl) with
+    | some (_, it :: rest) => (some { st with cqs := (cl, rest) :: st.cqs.filter (·.1 ≠ cl) }, [it])
+    | _ => (s, ["cmsg empty"])
   | [kind, ch], some st =>
     if kind = "close-chan" || kind = "drop-chan" then
       match ch.toNat? with
